@@ -1,3 +1,52 @@
 import LokiModel.Props.C08
+/-!
+# C08 — witnesses of the open findings (statements about *defects of the current code*, not gating)
+
+The faithful model (`strict = false`) reproduces, tree for tree, what `simplify` returns on these inputs (each witness
+is also a request in `harness/props/c08.py: SPECIAL`, replayed on the real code by the direct oracle on every run).
+-/
 namespace LokiModel.C08
+open LokiModel.Expr LokiModel.C06
+
+def envW (a b c n : Int) : Env :=
+  ⟨fun x => if x = "a" then some (.int a) else if x = "b" then some (.int b) else if x = "c" then some (.int c)
+            else some (.int n), fun _ => 0⟩
+
+/-- class `flatten-distributes-integer-quotient`: with `Flatten`, `(a + b) / c` becomes `a / c + b / c`;
+at `a = b = 1, c = 2` the tree has the value 1, the result 0 -/
+theorem C08_witness_quotient_distribution :
+    ∃ t', simp (kEq false) ⟨true, false, false, false⟩ 12 (.quot false (.sum false [.var "a", .var "b"]) (.var "c")) = some t' ∧
+      evalS (envW 1 1 2 0) (den (.quot false (.sum false [.var "a", .var "b"]) (.var "c"))) = some (.int 1) ∧
+      evalS (envW 1 1 2 0) (den t') = some (.int 0) :=
+  ⟨.sum false [.quot false (.var "a") (.var "c"), .quot false (.var "b") (.var "c")], by rfl, by decide, by decide⟩
+
+/-- with `Flatten`, `a * (b / c)` becomes `a*b / c`: at `a = 2, b = 1, c = 2` the value is 0, the result 1 -/
+theorem C08_witness_product_quotient :
+    ∃ t', simp (kEq false) ⟨true, false, false, false⟩ 12 (.prod false [.var "a", .quot false (.var "b") (.var "c")]) = some t' ∧
+      evalS (envW 2 1 2 0) (den (.prod false [.var "a", .quot false (.var "b") (.var "c")])) = some (.int 0) ∧
+      evalS (envW 2 1 2 0) (den t') = some (.int 1) :=
+  ⟨.quot false (.prod false [.var "a", .var "b"]) (.var "c"), by rfl, by decide, by decide⟩
+
+/-- class `separate-coefficients-drops-factors`: with `CollectCoefficients` alone, `a + b*(-1*c*n)` becomes
+`a - b*c` (`_process` looks only at `children[1]` of the minus-prefixed factor): at `a = 0, b = c = 1, n = 2`
+the value is -2, the result -1 -/
+theorem C08_witness_dropped_factor :
+    ∃ t', simp (kEq false) ⟨false, false, true, false⟩ 12
+        (.sum false [.var "a", .prod false [.var "b", .prod false [.pyint (-1), .var "c", .var "n"]]]) = some t' ∧
+      evalS (envW 0 1 1 2) (den (.sum false [.var "a", .prod false [.var "b", .prod false [.pyint (-1), .var "c", .var "n"]]]))
+        = some (.int (-2)) ∧
+      evalS (envW 0 1 1 2) (den t') = some (.int (-1)) :=
+  ⟨.sum false [.var "a", .prod false [.pyint (-1), .var "b", .var "c"]], by rfl, by decide, by decide⟩
+
+/-- the full statement is false of the code as it is -/
+theorem C08_full_false : ¬ C08_full := by
+  intro h
+  obtain ⟨t', h1, h2, h3⟩ := C08_witness_quotient_distribution
+  have := h (kEq false) rfl _ _ _ _ h1 (envW 1 1 2 0) (.int 1) h2
+  rw [h3] at this
+  cases this
+
+/-- the strict model refuses exactly there -/
+example : simp (kEq true) ⟨true, false, false, false⟩ 12 (.quot false (.sum false [.var "a", .var "b"]) (.var "c")) = none := by rfl
+
 end LokiModel.C08
